@@ -3,6 +3,7 @@ from fractions import Fraction
 from .. import terms as T
 from ..terms import C, NONE
 from .. import engine as E
+from . import common
 
 SIG = ('param', 'sig')
 
@@ -15,6 +16,9 @@ def check(rep, model, tier):
     rep.rule('LEVEL', 'the level handed to the crossing finder is (first + last sample of the window) / 2, with the window and the flank of the same search')
     rep.rule('INVERT-TABLE', 'the inverted-flank test is first > last for a rise and first < last for a decay')
     rep.rule('CROSSING', 'the crossing rule of find_flank_zerox (shared with C02)')
+    rep.rule('ARGS-INTACT', 'find_zerox (closed over its helpers) writes through none of its arguments: the midpoints are defined relative to the caller\'s signal and extrema arrays, '
+                            'which the caller goes on to use for the same cycles')
+    common.args_intact(rep, model, ['find_zerox'], why='signal and extrema are shared with the caller')
     rep.assumptions += ['np.median / np.sum / np.abs as documented; that the stored sample is the median crossing for a concrete signal follows from numpy semantics (not decided)']
     f = model.find('_find_flank_midpoints')
     site = f'{f.path}:{f.node.lineno} _find_flank_midpoints'
